@@ -51,7 +51,7 @@ RULE = ('stream engine (mode paired): program x oracle x two schedules (+evict, 
         'pause/resume rounds x cache eviction on/off on the REAL engine, outcome at quiescence vs Mistral.Sem; non-trivial = '
         'a join, a failing task or an operator command; distinct = distinct (definition, oracle, schedule seed, commands, evict); stream ctx as in C05 (the real data-flow functions on generated publish histories, every inbound context in all row orders, against Mistral.Ctx + order-independence monitor + the leaf-granular causal monitor on every row order; stream hist: whole histories against Mistral.Hist)')
 TRUSTED = ['harness seams replaced by recorders']
-LEAN_MODULES = ['Mistral.Props.C02', 'Mistral.Props.C02Sem']
+LEAN_MODULES = ['Mistral.Props.C02', 'Mistral.Props.C02Sem', 'Mistral.Props.C01X']
 
 
 def correspond(ctx):
